@@ -878,6 +878,16 @@ impl Mp4TrackWriter {
         sample: &Mp4Sample,
         movie_timescale: u32,
     ) -> Result<u64> {
+        // Reject, before anything is recorded, a sample whose duration would make the
+        // track duration unrepresentable in the movie timescale.
+        let total = (self.trak.mdia.mdhd.duration as u128 + sample.duration as u128)
+            * movie_timescale as u128
+            / self.trak.mdia.mdhd.timescale as u128;
+        if total > u64::MAX as u128 {
+            return Err(Error::InvalidData(
+                "track duration does not fit in 64 bits of the movie timescale",
+            ));
+        }
         self.chunk_buffer.extend_from_slice(&sample.bytes);
         self.chunk_samples += 1;
         self.chunk_duration = self.chunk_duration.saturating_add(sample.duration);
